@@ -31,6 +31,10 @@ STRATEGIES = {
     "at-waitpid-pid": {"order": "random", "batch": "one", "target_waitpid_pid": True},
     "at-waitpid-pid-some": {"order": "random", "batch": "rand", "target_waitpid_pid": True, "p_exit": {"*": 0.05}},
     "starve": {"order": "random", "batch": "one", "starve_first": True},
+    # the child exits in the window between the interpreter's last signal check and the blocking read()
+    # system call: the C-level handler runs, the system call is not interrupted (no EINTR)
+    "race-read": {"order": "random", "batch": "one", "p_exit": {"read": 1.0}, "p_race_read": 1.0},
+    "race-read-some": {"order": "random", "batch": "rand", "p_exit": {"read": 0.5, "*": 0.05}, "p_race_read": 0.5},
     # exits + SIGCHLD at line boundaries of Conductor's own code (needs line monitoring)
     "lines": {"order": "random", "batch": "rand", "p_line": 0.05, "p_exit": {"line": 0.5, "*": 0.05}},
     "lines-dense": {"order": "random", "batch": "one", "p_line": 0.5, "p_exit": {"line": 0.7}},
@@ -247,7 +251,7 @@ def run_invocation(spec):
         "uninterposed": sorted(set(kernel.uninterposed)),
         "lines": {"n": lines["n"], "site": lines["site"], "fired": lines["fired"], "sites": lines["sites"] if spec.get("count_lines") else None},
         "stats": {"states": sorted(kernel.states_seen), "sigchld": kernel.sigchld_deliveries, "max_batch": kernel.max_batch,
-                  "lost_candidates": kernel.lost_candidates, "steps": kernel.steps, "wall": time.monotonic() - t0},
+                  "lost_candidates": kernel.lost_candidates, "read_races": kernel.read_races, "steps": kernel.steps, "wall": time.monotonic() - t0},
         "strategy": sname,
     }
 
